@@ -15,11 +15,26 @@ pub const HANDLERS2: [&str; 10] = [
     "get_info", "make_credential", "get_assertion", "get_next_assertion", "reset", "client_pin", "credential_management", "selection", "vendor", "large_blobs",
 ];
 
-const ERRS2: [E2; 12] = [
-    E2::InvalidParameter, E2::OperationDenied, E2::PinInvalid, E2::NoCredentials, E2::KeyStoreFull, E2::UserActionTimeout, E2::PinAuthInvalid,
-    E2::CredentialExcluded, E2::UnsupportedOption, E2::NotAllowed, E2::InvalidLength, E2::Other,
+/// every named CTAP2 status (a handler may return any of them, incl. Success and the range markers)
+const ERRS2: [E2; 55] = [
+    E2::Success, E2::InvalidCommand, E2::InvalidParameter, E2::InvalidLength, E2::InvalidSeq, E2::Timeout, E2::ChannelBusy, E2::LockRequired,
+    E2::InvalidChannel, E2::CborUnexpectedType, E2::InvalidCbor, E2::MissingParameter, E2::LimitExceeded, E2::UnsupportedExtension,
+    E2::FingerprintDatabaseFull, E2::LargeBlobStorageFull, E2::CredentialExcluded, E2::Processing, E2::InvalidCredential, E2::UserActionPending,
+    E2::OperationPending, E2::NoOperations, E2::UnsupportedAlgorithm, E2::OperationDenied, E2::KeyStoreFull, E2::NotBusy, E2::NoOperationPending,
+    E2::UnsupportedOption, E2::InvalidOption, E2::KeepaliveCancel, E2::NoCredentials, E2::UserActionTimeout, E2::NotAllowed, E2::PinInvalid,
+    E2::PinBlocked, E2::PinAuthInvalid, E2::PinAuthBlocked, E2::PinNotSet, E2::PinRequired, E2::PinPolicyViolation, E2::PinTokenExpired,
+    E2::RequestTooLarge, E2::ActionTimeout, E2::UpRequired, E2::UvBlocked, E2::IntegrityFailure, E2::InvalidSubcommand, E2::UvInvalid,
+    E2::UnauthorizedPermission, E2::Other, E2::SpecLast, E2::ExtensionFirst, E2::ExtensionLast, E2::VendorFirst, E2::VendorLast,
 ];
-const ERRS1: [E1; 4] = [E1::ConditionsOfUseNotSatisfied, E1::IncorrectDataParameter, E1::WrongLength, E1::NotFound];
+/// a broad sample of ISO 7816 status words, incl. Success and parameterised ones
+const ERRS1: [E1; 24] = [
+    E1::Success, E1::ConditionsOfUseNotSatisfied, E1::IncorrectDataParameter, E1::WrongLength, E1::NotFound, E1::UnspecifiedCheckingError,
+    E1::ClassNotSupported, E1::InstructionNotSupportedOrInvalid, E1::SecurityStatusNotSatisfied, E1::OperationBlocked, E1::NotEnoughMemory,
+    E1::IncorrectP1OrP2Parameter, E1::FunctionNotSupported, E1::KeyReferenceNotFound, E1::LogicalChannelNotSupported,
+    E1::SecureMessagingNotSupported, E1::CommandChainingNotSupported, E1::UnspecifiedNonpersistentExecutionError,
+    E1::UnspecifiedPersistentExecutionError, E1::MoreAvailable(7), E1::RemainingRetries(3), E1::VerificationFailed, E1::DataUnchangedWarning,
+    E1::CorruptedData,
+];
 
 struct Mock {
     log: Vec<(&'static str, String)>,
@@ -327,7 +342,7 @@ pub fn gens() -> Vec<Gen> {
     vec![G2, G1]
 }
 
-pub const RULE: &str = "A recording mock implements both Authenticator traits: every handler appends (name, Debug rendering of its argument) to a log and returns a handler-specific success value or one of 12 (CTAP2) / 4 (CTAP1) distinct errors according to a generated behaviour table (handler -> Ok | Err(e_i)); a second mock leaves large_blobs at its default; version() is overridden. Requests: every CTAP2 variant (exhaustive over the 10 variants and all 64 vendor codes 0x40..0x7F; parameter-bearing ones obtained by decoding messages from the C01 generator) and the 3 CTAP1 variants (decoded from framed APDUs), each crossed with proptest behaviour tables and with both entry points (call_ctap2 / call_ctap1 and Rpc::call). Oracle: exactly one log entry (none for CTAP1 Version), for the command's handler, with an argument rendering equal to the request payload's; result = Ok(same-named variant(handler value)) or Err(handler error) unchanged; GetInfo Ok whatever the table; default large_blobs -> Err(InvalidCommand) with an empty log; both entry points agree. Non-trivial: the behaviour table gives the invoked handler an outcome that differs from at least one other handler (so cross-wiring is observable).";
+pub const RULE: &str = "A recording mock implements both Authenticator traits: every handler appends (name, Debug rendering of its argument) to a log and returns a handler-specific success value or one of every named CTAP2 status (55) / 24 ISO 7816 status words incl. Success according to a generated behaviour table (handler -> Ok | Err(e_i)); a second mock leaves large_blobs at its default; version() is overridden. Requests: every CTAP2 variant (exhaustive over the 10 variants and all 64 vendor codes 0x40..0x7F; parameter-bearing ones obtained by decoding messages from the C01 generator) and the 3 CTAP1 variants (decoded from framed APDUs), each crossed with proptest behaviour tables and with both entry points (call_ctap2 / call_ctap1 and Rpc::call). Oracle: exactly one log entry (none for CTAP1 Version), for the command's handler, with an argument rendering equal to the request payload's; result = Ok(same-named variant(handler value)) or Err(handler error) unchanged; GetInfo Ok whatever the table; default large_blobs -> Err(InvalidCommand) with an empty log; both entry points agree. Non-trivial: the behaviour table gives the invoked handler an outcome that differs from at least one other handler (so cross-wiring is observable).";
 pub const ASSUMPTIONS: &[&str] = &["handler arguments are compared through their Debug rendering (the argument types are not Clone-free comparable across the trait boundary)"];
 
 pub fn run(ctx: &mut Ctx) {
